@@ -218,3 +218,63 @@ def alloc_cases(rng, tier):
             items.append({"label": "honest chunks, then chunk size %s followed by %d bytes" % (size.decode(), after), "kind": "resp",
                           "stream": chunked + b"3\r\nabc\r\n" * 3 + size + CRLF + b"x" * after, "declared": int(size.split(b";")[0], 16)})
     return items
+
+
+def byte_sweep():
+    """every byte value in every position of a short numeric field (chunk size, Content-Length of a response and of a
+    request, status code), followed by exactly the data that a tolerant reading of that byte would announce: case
+    folding, masking or offsetting a byte can turn a non-digit into a digit (sixth round: `byte | 0x20` read 0x10..0x19
+    as 0..9), and then the misreading ends in acceptance rather than in a different rejection.
+    -> dicts pos, field, kind ('resp' | 'req'), stream"""
+    def misread(b, radix):
+        ks = set([b & 0x0f])
+        for c in (b | 0x20, b & 0xdf, b & 0x7f, b ^ 0x20, (b + 0x30) & 0xff, (b - 0x30) & 0xff, (b + 0x20) & 0xff, (b - 0x20) & 0xff, b ^ 0x80):
+            ch = bytes([c])
+            if ch in (b"0123456789abcdefABCDEF" if radix == 16 else b"0123456789"):
+                ks.add(int(ch, 16))
+        return sorted(ks)
+    chunked = b"HTTP/1.1 200 OK\r\nTransfer-Encoding: chunked\r\n\r\n"
+    out = []
+    for b in range(256):
+        if b in (9, 10, 13, 32):
+            continue
+        ch = bytes([b])
+        for radix, poss in ((16, ("chunk",)), (10, ("resp-cl", "req-cl"))):
+            if ch in (b"0123456789abcdefABCDEF" if radix == 16 else b"0123456789") or (radix == 16 and ch == b";"):
+                continue
+            for kk in misread(b, radix):
+                for w, val in ((ch, kk), (b"1" + ch, radix + kk), (ch + b"1", radix * kk + 1)):
+                    data = (b"abcdefghijklmnopqrstuvwxyz" * 10)[:val]
+                    for pos in poss:
+                        if pos == "chunk":
+                            out.append({"pos": pos, "field": w, "kind": "resp", "stream": chunked + w + CRLF + (data + CRLF + b"0\r\n\r\n" if val else CRLF)})
+                        elif pos == "resp-cl":
+                            out.append({"pos": pos, "field": w, "kind": "resp", "stream": b"HTTP/1.1 200 OK\r\nContent-Length: " + w + b"\r\n\r\n" + data})
+                        else:
+                            out.append({"pos": pos, "field": w, "kind": "req", "stream": b"POST / HTTP/1.1\r\nContent-Length: " + w + b"\r\n\r\n" + data})
+        if ch not in b"0123456789":
+            for w in (ch + b"00", b"2" + ch + b"0", b"20" + ch, ch, b"2" + ch):
+                out.append({"pos": "status", "field": w, "kind": "resp", "stream": b"HTTP/1.1 " + w + b" OK\r\n\r\n"})
+    return out
+
+
+def status_sweep(tier, rng):
+    """every status code 0..999 under each framing, followed by bytes that do not belong to the message (a seeded change
+    of the sixth round treated exactly one code, 101, differently on exactly one framing path).  The quick tier takes
+    every code for the body-less framing and the codes in and around the source's integer literals, the class
+    boundaries and a sample for the other two. -> dicts label, stream, framing, msg_len"""
+    special = set(v + d for v in srcdict.load()["ints"] if v < 1100 for d in (-1, 0, 1)) | set(c + d for c in (0, 100, 200, 300, 400, 500, 600, 999) for d in (-1, 0, 1, 2, 3, 4, 5, 6))
+    special |= set((101, 102, 103, 204, 205, 206, 226, 301, 302, 303, 304, 305, 307, 308, 401, 407, 408, 413, 416, 417, 421, 426, 431))
+    out = []
+    for code in range(1000):
+        framings = ("none", "fixed", "chunked") if (tier != "quick" or code in special or rng.chance(1, 10)) else ("none",)
+        for fr in framings:
+            line = b"HTTP/1.1 %d X\r\n" % code
+            if fr == "none":
+                m = line + b"Server: s\r\n\r\n"
+            elif fr == "fixed":
+                m = line + b"Content-Length: 3\r\n\r\nabc"
+            else:
+                m = line + b"Transfer-Encoding: chunked\r\nTrailer: T\r\n\r\n3\r\nabc\r\n0\r\nT: v\r\n\r\n"
+            out.append({"label": "status %d, framing %s, bytes after the message" % (code, fr), "stream": m + b"HTTP/1.1 200 OK\r\n\r\n", "framing": fr, "msg_len": len(m), "code": code})
+    return out
